@@ -680,9 +680,9 @@ pub fn list_building_order(cx: &mut Ctx, g: &Grammar, rule: &str) {
 
 /// E1: which expression level each position of the grammar accepts.
 /// The reviewed wiring is refdata/expr_wiring.json (regenerate with `rpverif dump-expr-wiring` from the reviewed tree):
-/// per nonterminal alternative, keyed by its condition and its symbol sequence with every expression-typed
-/// nonterminal masked, the list of expression nonterminals that stand at the masked places.
-pub fn expr_wiring_of(g: &Grammar) -> Vec<(String, String, String, Vec<String>)> {
+/// per nonterminal, the set of (macro condition of the alternative, preceding terminal if the previous symbol is one,
+/// the symbol that contains the expression with expression nonterminals masked, the expression nonterminal).
+pub fn expr_wiring_of(g: &Grammar) -> Vec<(String, String, String, String, String)> {
     fn is_expr_nt(g: &Grammar, name: &str) -> bool {
         g.def(name).map_or(false, |d| d.ty.as_deref().map_or(false, |t| t.replace(' ', "") == "ast::Expr"))
     }
@@ -718,59 +718,59 @@ pub fn expr_wiring_of(g: &Grammar) -> Vec<(String, String, String, Vec<String>)>
     let mut out = vec![];
     for d in &g.defs {
         for a in &d.alts {
-            let mut levels = vec![];
-            // position captures are not part of the language
-            let seq: Vec<String> = a.syms.iter().filter(|s| !matches!(s.kind, crate::grammar::SymKind::Lookahead | crate::grammar::SymKind::Lookbehind)).map(|s| mask(g, s, &d.params, &mut levels)).collect();
             let cond = a.cond.as_ref().map(|(p, eq, lit)| format!("{}{}{}", p, if *eq { "==" } else { "!=" }, lit)).unwrap_or_default();
-            // only alternatives that accept an expression somewhere are wired
-            if !levels.is_empty() {
-                out.push((d.name.clone(), cond, seq.join(" "), levels));
+            // position captures are not part of the language
+            let syms: Vec<&crate::grammar::Sym> = a.syms.iter().filter(|s| !matches!(s.kind, SymKind::Lookahead | SymKind::Lookbehind)).collect();
+            for (i, s) in syms.iter().enumerate() {
+                let mut levels = vec![];
+                let container = mask(g, s, &d.params, &mut levels);
+                if levels.is_empty() {
+                    continue;
+                }
+                let prev = match i.checked_sub(1).map(|k| &syms[k].kind) {
+                    Some(SymKind::Term(t)) => format!("{:?}", t),
+                    Some(_) => "·".to_string(),
+                    None => "^".to_string(),
+                };
+                for l in levels {
+                    out.push((d.name.clone(), cond.clone(), prev.clone(), container.clone(), l));
+                }
             }
         }
     }
+    out.sort();
+    out.dedup();
     out
 }
 
 pub fn expr_wiring(cx: &mut Ctx, g: &Grammar, rule: &str) {
-    cx.rule(rule, "precedence wiring of the grammar: every place where an alternative accepts an expression names the same expression level as in the reviewed grammar (refdata/expr_wiring.json: per alternative — identified by its nonterminal, its macro condition and its symbol sequence with expression nonterminals masked — the expression nonterminals at the masked places); a level that is narrower rejects valid programs or makes acceptance depend on redundant parentheses, a wider one accepts invalid programs, a swapped pair changes associativity; alternatives added, removed or re-conditioned fail closed");
+    cx.rule(rule, "precedence wiring of the grammar: every place where an alternative accepts an expression names the same expression level as in the reviewed grammar (refdata/expr_wiring.json: per nonterminal the set of (macro condition, preceding terminal, containing symbol with expression nonterminals masked, expression nonterminal)); a level that is narrower rejects valid programs or makes acceptance depend on redundant parentheses, a wider one accepts invalid programs, a swapped pair changes associativity, a condition added to an alternative removes it from some contexts; the comparison is on sets, so reordering alternatives, renaming bindings or moving position captures does not matter");
     cx.floor(rule, 120);
     let refd = match tables::refdata(&cx.verif, "expr_wiring.json") {
         Ok(v) => v,
         Err(e) => return cx.anchor_missing(rule, &e),
     };
     cx.refdata.insert("expr_wiring.json".into());
-    let mut want: BTreeMap<(String, String, String), Vec<Vec<String>>> = BTreeMap::new();
-    for r in refd.as_array().cloned().unwrap_or_default() {
-        let k = (r[0].as_str().unwrap_or("").to_string(), r[1].as_str().unwrap_or("").to_string(), r[2].as_str().unwrap_or("").to_string());
-        let lv: Vec<String> = r[3].as_array().map(|a| a.iter().filter_map(|x| x.as_str().map(|s| s.to_string())).collect()).unwrap_or_default();
-        want.entry(k).or_default().push(lv);
-    }
-    let mut got: BTreeMap<(String, String, String), Vec<Vec<String>>> = BTreeMap::new();
-    for (d, c, seq, lv) in expr_wiring_of(g) {
-        got.entry((d, c, seq)).or_default().push(lv);
-    }
-    for (k, lv) in &got {
-        let mut a = lv.clone();
-        a.sort();
-        match want.get(k) {
-            Some(w) => {
-                let mut b = w.clone();
-                b.sort();
-                if a == b {
-                    for _ in 0..a.len() {
-                        cx.ok_trivial(rule);
-                    }
-                } else {
-                    cx.fail(rule, &format!("{}/{}/{}", rule, k.0, k.2), "parser/src/python.lalrpop", &format!("{}: the alternative `{}`{} takes the expression level(s) {:?}; the reviewed grammar has {:?} there", k.0, k.2, if k.1.is_empty() { String::new() } else { format!(" if {}", k.1) }, a, b));
-                }
-            }
-            None => cx.fail(rule, &format!("{}/{}/{}/new", rule, k.0, k.2), "parser/src/python.lalrpop", &format!("{}: the alternative `{}`{} is not in the reviewed wiring (new, re-conditioned or restructured alternative): review refdata/expr_wiring.json (fail closed)", k.0, k.2, if k.1.is_empty() { String::new() } else { format!(" if {}", k.1) })),
+    let tup = |r: &serde_json::Value| -> (String, String, String, String, String) {
+        let g = |i: usize| r[i].as_str().unwrap_or("").to_string();
+        (g(0), g(1), g(2), g(3), g(4))
+    };
+    let want: BTreeSet<(String, String, String, String, String)> = refd.as_array().cloned().unwrap_or_default().iter().map(tup).collect();
+    let got: BTreeSet<(String, String, String, String, String)> = expr_wiring_of(g).into_iter().collect();
+    let show = |t: &(String, String, String, String, String)| format!("{}: {}{} {} = {}", t.0, if t.1.is_empty() { String::new() } else { format!("[if {}] ", t.1) }, match t.2.as_str() { "^" => "at the start".to_string(), "·" => "after a nonterminal".to_string(), x => format!("after {}", x) }, t.3, t.4);
+    for t in &got {
+        if want.contains(t) {
+            cx.ok_trivial(rule);
+        } else {
+            // what the reviewed grammar has in the same context
+            let same_ctx: Vec<&String> = want.iter().filter(|w| w.0 == t.0 && w.2 == t.2 && w.3 == t.3).map(|w| &w.4).collect();
+            cx.fail(rule, &format!("{}/{}/{}/{}", rule, t.0, t.2, t.3), "parser/src/python.lalrpop", &format!("{} — the reviewed grammar has {:?} in this context", show(t), same_ctx));
         }
     }
-    for k in want.keys() {
-        if !got.contains_key(k) {
-            cx.fail(rule, &format!("{}/{}/{}/missing", rule, k.0, k.2), "parser/src/python.lalrpop", &format!("{}: the reviewed alternative `{}`{} no longer exists (fail closed)", k.0, k.2, if k.1.is_empty() { String::new() } else { format!(" if {}", k.1) }));
+    for t in &want {
+        if !got.contains(t) {
+            cx.fail(rule, &format!("{}/{}/{}/{}/missing", rule, t.0, t.2, t.3), "parser/src/python.lalrpop", &format!("{} — this reviewed context no longer exists in the grammar", show(t)));
         }
     }
-    cx.ok(rule, "every alternative's expression levels agree with the reviewed wiring");
+    cx.ok(rule, "every expression context agrees with the reviewed wiring");
 }
